@@ -293,11 +293,13 @@ func (c *codecV2) EncodeRequest(req *tikvrpc.Request) (*tikvrpc.Request, error) 
 		r := *req.BatchCop()
 		r.Regions = c.encodeRegionInfos(r.Regions)
 		r.TableRegions = c.encodeTableRegions(r.TableRegions)
+		r.TableShardInfos = c.encodeTableShardInfos(r.TableShardInfos)
 		req.Req = &r
 	case tikvrpc.CmdMPPTask:
 		r := *req.DispatchMPPTask()
 		r.Regions = c.encodeRegionInfos(r.Regions)
 		r.TableRegions = c.encodeTableRegions(r.TableRegions)
+		r.TableShardInfos = c.encodeTableShardInfos(r.TableShardInfos)
 		req.Req = &r
 
 	// Other requests.
@@ -317,11 +319,15 @@ func (c *codecV2) EncodeRequest(req *tikvrpc.Request) (*tikvrpc.Request, error) 
 		r := *req.Cop()
 		r.Ranges = c.encodeCopRanges(r.Ranges)
 		r.Tasks = c.encodeStoreBatchTasks(r.Tasks)
+		r.VersionedRanges = c.encodeVersionedRanges(r.VersionedRanges)
+		r.TableShardInfos = c.encodeTableShardInfos(r.TableShardInfos)
 		req.Req = &r
 	case tikvrpc.CmdCopStream:
 		r := *req.Cop()
 		r.Ranges = c.encodeCopRanges(r.Ranges)
 		r.Tasks = c.encodeStoreBatchTasks(r.Tasks)
+		r.VersionedRanges = c.encodeVersionedRanges(r.VersionedRanges)
+		r.TableShardInfos = c.encodeTableShardInfos(r.TableShardInfos)
 		req.Req = &r
 	case tikvrpc.CmdMvccGetByKey:
 		r := *req.MvccGetByKey()
@@ -967,9 +973,38 @@ func (c *codecV2) encodeStoreBatchTasks(tasks []*coprocessor.StoreBatchTask) []*
 	for _, task := range tasks {
 		t := *task
 		t.Ranges = c.encodeCopRanges(t.Ranges)
+		t.VersionedRanges = c.encodeVersionedRanges(t.VersionedRanges)
 		encodedTasks = append(encodedTasks, &t)
 	}
 	return encodedTasks
+}
+
+func (c *codecV2) encodeVersionedRanges(ranges []*coprocessor.VersionedKeyRange) []*coprocessor.VersionedKeyRange {
+	var encodedRanges []*coprocessor.VersionedKeyRange
+	for _, versioned := range ranges {
+		v := *versioned
+		if v.Range != nil {
+			v.Range = c.encodeCopRange(v.Range)
+		}
+		encodedRanges = append(encodedRanges, &v)
+	}
+	return encodedRanges
+}
+
+func (c *codecV2) encodeTableShardInfos(infos []*coprocessor.TableShardInfos) []*coprocessor.TableShardInfos {
+	var encodedInfos []*coprocessor.TableShardInfos
+	for _, info := range infos {
+		i := *info
+		var shards []*coprocessor.ShardInfo
+		for _, shard := range info.ShardInfos {
+			s := *shard
+			s.Ranges = c.encodeCopRanges(shard.Ranges)
+			shards = append(shards, &s)
+		}
+		i.ShardInfos = shards
+		encodedInfos = append(encodedInfos, &i)
+	}
+	return encodedInfos
 }
 
 func (c *codecV2) decodeRegionError(regionError *errorpb.Error) (*errorpb.Error, error) {
